@@ -84,3 +84,18 @@ def base_family(observer=None):
                                S(1, 2, True, True, maxNormalOrders=1, maxHighFrequencyOrders=1, highFrequencySubmitRate=1)],
         agents(2, 1), markets=[dict(name="M0", tick=1, price=100)])
     return sc
+
+
+def logger_variants(observer=None):
+    """runs of the base family observed by a user-style collecting logger that is falsy while empty, and by no
+    logger at all (the probes record everything the acceptors other than C10's need)"""
+    import copy
+    sc = base_family(observer)
+    out = {}
+    for base, kind in (("A_noexec_then_exec", "sized"), ("H_ttl_and_self_trade", "sized"), ("A_noexec_then_exec", "none"),
+                       ("M_three_markets_index", "none"), ("N_halt_in_mid_step", "none")):
+        s2 = copy.copy(sc[base])
+        s2.name = "%s:%s_logger" % (base, "no" if kind == "none" else kind)
+        s2.meta = dict(s2.meta, logger=kind)
+        out[s2.name] = s2
+    return out
